@@ -55,6 +55,10 @@ class AsyncResult(g_AsyncResult):
         if total[0] == 0:
           ret.set(results)
 
+    if num_ars == 0:
+      # Nothing to wait for (and no callback will ever run).
+      ret.set(results)
+
     for n, ar in enumerate(ars):
       ar.rawlink(functools.partial(complete, n))
     return ret
